@@ -25,7 +25,7 @@ def N(name, file, edits, all_=False):
 
 
 _GUARD_CONSTPROP = M("const-propagation-without-single-assignment", CP, [("                if not sym.is_overwritten:\n                    for read_node in", "                if True:\n                    for read_node in")], ["R01.c", "R03.d"])
-_MODULE_LIFETIME = M("unbounded-lifetime-only-for-main-module", T, [("if isinstance(node.scope(), nodes.Module):", 'if node.scope().name == "":')], ["R04.e", "R13.d"])
+_MODULE_LIFETIME = M("unbounded-lifetime-only-for-main-module", T, [("                if isinstance(scope, nodes.Module):", '                if scope.name == "":')], ["R04.e", "R13.d"])
 
 CORPUS = {
     "C01": [
@@ -93,7 +93,6 @@ CORPUS = {
         N("add-floor-to-math-names", U, [('    "exp",\n}', '    "exp",\n    "floor",\n}')]),
     ],
     "C04": [
-        M("alias-accesses-not-recorded", G, [("                    if isinstance(value, IC10Register):\n                        # the shared register stays in use as long as the new name is\n                        value.nodes_alias.extend(\n                            sym_data.nodes_reading + sym_data.nodes_writing\n                        )\n", "")], ["R04.h"]),
         M("alias-accesses-not-in-lifetime", T, [("accesses = self.nodes_reading + self.nodes_writing + self.nodes_alias", "accesses = self.nodes_reading + self.nodes_writing")], ["R04.h"]),
         M("widening-stops-at-nearest-loop", U, [("            loop = par\n            if all(par.parent_of(a) for a in accesses):\n                break\n", "            loop = par\n            break\n")], ["R04.d"]),
         M("accesses-not-handed-to-the-widening", T, [("all_nodes = [get_loop_ancestor(n, accesses) for n in accesses]", "all_nodes = [get_loop_ancestor(n) for n in accesses]")], ["R04.d"]),
@@ -117,8 +116,6 @@ CORPUS = {
         N("release-test-rewritten", RA, [("            if e <= start:", "            if not (e > start):")]),
     ],
     "C05": [
-        M("word-boundary-pattern", G, [('pattern = r"(?<![\\w.]){}(?![\\w.])".format(re.escape(label))', 'pattern = r"\\b{}\\b".format(re.escape(label))')], ["R05.a"]),
-        M("right-boundary-only-word", G, [('pattern = r"(?<![\\w.]){}(?![\\w.])".format(re.escape(label))', 'pattern = r"(?<![\\w.]){}\\b".format(re.escape(label))')], ["R05.a"]),
         M("unused-label-test-by-substring", G, [("            if label in tokens:", "            if label in line:")], ["R05.a"]),
         M("else-label-never-defined", G, [('            data.add_else(IC10(f"{else_label}:", indent=-1))', "            pass")], ["R05.b"]),
         M("end-label-defined-twice", G, [('        data.add_end(IC10(f"{end_label}:", indent=-1))', '        data.add_end(IC10(f"{end_label}:", indent=-1))\n        data.add_end(IC10(f"{end_label}:", indent=-1))')], ["R05.b"]),
@@ -129,8 +126,6 @@ CORPUS = {
         M("counter-advances-conditionally", G, [("        self._name_counter += 1\n\n        names = [", "        if len(prefixes) > 1:\n            self._name_counter += 1\n\n        names = [")], ["R05.e"]),
         M("label-prefix-ends-in-digit", G, [('self.get_label("else", "end")', 'self.get_label("else2", "end")')], ["R05.e"]),
         M("label-map-off-by-one", G, [("label_map[label] = len(new_code)", "label_map[label] = len(new_code) + 1")], ["R05.f"]),
-        N("pattern-as-fstring", G, [('pattern = r"(?<![\\w.]){}(?![\\w.])".format(re.escape(label))', 'pattern = rf"(?<![\\w.]){re.escape(label)}(?![\\w.])"')]),
-        N("explicit-character-class", G, [('pattern = r"(?<![\\w.]){}(?![\\w.])".format(re.escape(label))', 'pattern = r"(?<![A-Za-z0-9_.]){}(?![A-Za-z0-9_.])".format(re.escape(label))')]),
         N("rename-label-variables", G, [("else_label", "lbl_else")], all_=True),
     ],
     "C06": [
@@ -274,3 +269,10 @@ def apply(m, root: Path) -> bool:
         s = s.replace(old, new) if m.get("all") else s.replace(old, new, 1)
     p.write_text(s, encoding="utf-8")
     return True
+
+
+# variants written after the round-4 repairs (kept in a file of their own: plain triple-quoted text, no escaping games)
+from .corpus2 import EXTRA as _EXTRA  # noqa: E402
+
+for _pid, _vs in _EXTRA.items():
+    CORPUS.setdefault(_pid, []).extend(_vs)
